@@ -29,6 +29,11 @@ def check(c: Check):
     clause_c(c)
     clause_d(c)
     clause_e(c)
+    from .common import sweep_records
+    sweep_records(c, 'C11-rec', ['exactly_lib.test_case.phases.instruction_settings',
+                                 'exactly_lib.util.process_execution.execution_elements',
+                                 'exactly_lib.test_case.phases.act.execution_input',
+                                 'exactly_lib.execution.configuration'], floor=3)
     # f: an environment from which every variable has been unset is the EMPTY environment - None means "inherit"
     check_zero_is_a_value(c, 'C11-f', ['exactly_lib.util.process_execution.process_executor',
                                        'exactly_lib.util.process_execution.execution_elements',
